@@ -67,7 +67,8 @@ def rand_tags(m, rng, oriented=True, empty=True):
     from skfem.generic_utils import OrientedBoundary
     nt, nf = m.t.shape[1], m.facets.shape[1]
     sub = {}
-    for nm in ('sa', 'sb')[:int(rng.integers(1, 3))]:
+    # names that look like the prefixes of the key schemes, and one containing ':' (read back with split(':', 2))
+    for nm in ('s_a', 'bulk:core')[:int(rng.integers(1, 3))]:
         k = int(rng.integers(0 if empty else 1, nt + 1))
         s = rng.choice(nt, size=k, replace=False).astype(np.int32)
         sub[nm] = s if rng.random() < 0.3 else np.sort(s)
@@ -76,7 +77,7 @@ def rand_tags(m, rng, oriented=True, empty=True):
     bnd = {}
     k = int(rng.integers(0 if empty else 1, len(bf) + 1))
     f = rng.choice(bf, size=k, replace=False).astype(np.int32)
-    bnd['outer'] = f if rng.random() < 0.3 else np.sort(f)
+    bnd['b_outer'] = f if rng.random() < 0.3 else np.sort(f)
     if len(itf):
         k = int(rng.integers(1, len(itf) + 1))
         f = np.sort(rng.choice(itf, size=k, replace=False)).astype(np.int32)
@@ -86,7 +87,7 @@ def rand_tags(m, rng, oriented=True, empty=True):
             bnd['iface'] = f
         if rng.random() < 0.5:
             k = int(rng.integers(1, len(itf) + 1))
-            bnd['plainint'] = np.sort(rng.choice(itf, size=k, replace=False)).astype(np.int32)
+            bnd['o_plain:int'] = np.sort(rng.choice(itf, size=k, replace=False)).astype(np.int32)
     if oriented and rng.random() < 0.7:
         k = int(rng.integers(1, nf + 1))
         f = rng.choice(nf, size=k, replace=False).astype(np.int32)
